@@ -6,8 +6,9 @@ arm (JsonM/ArrM/ObjM), the to_json/from_json the derive macros and json_map! exp
 muncher exactly like the expansion does), the `as` casts of traits.rs.
 
 1. TLC proves on the model (Dev = {}) ShapeOk, RoundTrip, DocReadsBack for every declaration x value in the bound and
-   MacroOk (macro = denotation, trailing commas neutral) for every literal in the bound; eight sensitivity configs
-   (the two deviations of the shipped code and six plausible bugs) must each be refuted.
+   MacroOk (macro = denotation, trailing commas neutral) for every literal in the bound and Compiles; ten sensitivity
+   configs (the three deviations of the shipped code - two of them repaired since - and six plausible bugs, plus the
+   dropped WellFormed precondition) must each be refuted.
 2. spec -> code (method A by program generation): TLC enumerates a rotating family of declarations (all 19 base types x
    6 wrapper stacks x 4 mapping routes x sizes, renames from a 10-string catalogue) with values incl. boundary integers,
    and all literals up to a node bound, printing for each the documented JSON and what the implementation must show.
